@@ -1455,6 +1455,9 @@ def propagate_condition_locals(func):
 # ----------------------------------------------------------------------------------------------- named constants
 def _display(e):
     """an expression that only names constants: literals, displays of such, enum members / other globals, arithmetic on them"""
+    if isinstance(e, ast.Attribute) and isinstance(e.value, ast.Call) and not e.value.args and not e.value.keywords \
+            and src(e.value.func).split('.')[0] in ('hashlib', 'ec', 'hashes', 'algorithms'):
+        return True         # hashlib.sha256().digest_size, ec.SECP256R1().key_size and the like: a property of the algorithm
     if isinstance(e, ast.Constant):
         return True
     if isinstance(e, (ast.Tuple, ast.List, ast.Set)):
@@ -1551,6 +1554,81 @@ def _struct_format(e):
             and all(k is not None for k in e.value.keys):
         return ast.Subscript(value=ast.Dict(keys=list(e.value.keys), values=[v.args[0] for v in e.value.values]), slice=e.slice, ctx=ast.Load())
     return None
+
+
+def eliminate_container_aliases(func, self_name, rebound_elsewhere):
+    """`x = self.a = {}` (or `x = self.a`) with x bound once: x and self.a name the same object for the rest of the function as long as
+    self.a is not rebound - which is required of the whole class (`rebound_elsewhere(attr)` false: no other method assigns it) and of
+    this function.  The local is replaced by the attribute, so that what is stored through the alias is seen on the attribute.
+    Returns the number of aliases replaced."""
+    if self_name is None:
+        return 0
+    stores = {}
+    for x in ast.walk(func):
+        if isinstance(x, ast.Name) and isinstance(x.ctx, (ast.Store, ast.Del)):
+            stores[x.id] = stores.get(x.id, 0) + 1
+    attr_stores = {}
+    for x in ast.walk(func):
+        if isinstance(x, ast.Attribute) and isinstance(x.ctx, (ast.Store, ast.Del)) and isinstance(x.value, ast.Name) and x.value.id == self_name:
+            attr_stores[x.attr] = attr_stores.get(x.attr, 0) + 1
+    params = {a.arg for a in ast.walk(func.args) if isinstance(a, ast.arg)}
+    n = 0
+
+    def is_self_attr(e):
+        return isinstance(e, ast.Attribute) and isinstance(e.value, ast.Name) and e.value.id == self_name
+
+    def visit(stmts):
+        nonlocal n
+        out = []
+        for st in stmts:
+            done = False
+            if isinstance(st, ast.Assign):
+                names = [t for t in st.targets if isinstance(t, ast.Name)]
+                attrs = [t for t in st.targets if is_self_attr(t)]
+                # x = self.a = V
+                if len(st.targets) == 2 and len(names) == 1 and len(attrs) == 1 and isinstance(st.value, (ast.Dict, ast.List, ast.Set, ast.Call)):
+                    x, a = names[0].id, attrs[0].attr
+                    if x not in params and stores.get(x) == 1 and attr_stores.get(a) == 1 and not rebound_elsewhere(a):
+                        repl[x] = ast.Attribute(value=ast.Name(id=self_name, ctx=ast.Load()), attr=a, ctx=ast.Load())
+                        st.targets = [attrs[0]]
+                        n += 1
+                # x = self.a   (a container held by the object; never rebound after construction)
+                elif len(st.targets) == 1 and len(names) == 1 and is_self_attr(st.value):
+                    x, a = names[0].id, st.value.attr
+                    if x not in params and stores.get(x) == 1 and not attr_stores.get(a) and not rebound_elsewhere(a) and mutated_through(x):
+                        repl[x] = copy.deepcopy(st.value)
+                        n += 1
+                        done = True
+            if not done:
+                out.append(st)
+            for fld in ('body', 'orelse', 'finalbody'):
+                sub = getattr(st, fld, None)
+                if isinstance(sub, list) and sub and isinstance(sub[0], ast.stmt) and not isinstance(st, (ast.FunctionDef, ast.ClassDef)):
+                    setattr(st, fld, visit(sub) or [ast.Pass()])
+            for h in getattr(st, 'handlers', []) or []:
+                h.body = visit(h.body) or [ast.Pass()]
+        return out
+
+    def mutated_through(x):
+        """the alias is written through (x[k] = v, x.append(..)): only then does it matter that it is the attribute"""
+        for y in ast.walk(func):
+            if isinstance(y, ast.Subscript) and isinstance(y.ctx, (ast.Store, ast.Del)) and isinstance(y.value, ast.Name) and y.value.id == x:
+                return True
+            if isinstance(y, ast.Call) and isinstance(y.func, ast.Attribute) and isinstance(y.func.value, ast.Name) and y.func.value.id == x \
+                    and y.func.attr in ('append', 'extend', 'insert', 'remove', 'pop', 'clear', 'update', 'add', 'discard', 'setdefault', 'sort'):
+                return True
+        return False
+    repl = {}
+    func.body = visit(func.body)
+    if repl:
+        class R(ast.NodeTransformer):
+            def visit_Name(s_, node):
+                if node.id in repl and isinstance(node.ctx, ast.Load):
+                    return ast.copy_location(copy.deepcopy(repl[node.id]), node)
+                return node
+        R().visit(func)
+        ast.fix_missing_locations(func)
+    return n
 
 
 def table_get_to_chain(func):
@@ -1952,11 +2030,89 @@ def erase_new_records(prog, known, attr_reads=None):
     return sorted(erased)
 
 
+def _unroll_constant_comprehensions(prog, known):
+    """a NEW module- or class-level table computed by a comprehension over a literal sequence - `{h: h().digest_size for h in (A, B)}`,
+    `{g: f(c) for g, c in _TABLE.items()}` with _TABLE a literal dict of the same scope - is written out as the display it builds
+    (`{A: A().digest_size, B: B().digest_size}`), so that it can be read like any other constant table"""
+    def literal_of(name, scope):
+        for st in scope:
+            if isinstance(st, ast.Assign) and len(st.targets) == 1 and isinstance(st.targets[0], ast.Name) and st.targets[0].id == name:
+                return st.value
+        return None
+
+    def elements(it, scopes):
+        """list of element expressions (tuples for .items()) of the iterable, or None"""
+        if isinstance(it, (ast.Tuple, ast.List)) and all(_display(x) for x in it.elts):
+            return list(it.elts)
+        base, how = it, 'iter'
+        if isinstance(it, ast.Call) and isinstance(it.func, ast.Attribute) and it.func.attr in ('items', 'keys', 'values') and not it.args:
+            base, how = it.func.value, it.func.attr
+        name = base.id if isinstance(base, ast.Name) else base.attr if isinstance(base, ast.Attribute) and isinstance(base.value, ast.Name) \
+            and base.value.id in ('cls', 'self') else None
+        if name is None:
+            return None
+        lit = None
+        for sc in scopes:
+            lit = literal_of(name, sc)
+            if lit is not None:
+                break
+        if isinstance(lit, ast.Dict) and all(k is not None for k in lit.keys):
+            if how in ('iter', 'keys'):
+                return list(lit.keys)
+            if how == 'values':
+                return list(lit.values)
+            return [ast.Tuple(elts=[k, v], ctx=ast.Load()) for k, v in zip(lit.keys, lit.values)]
+        if isinstance(lit, (ast.Tuple, ast.List)) and how == 'iter':
+            return list(lit.elts)
+        return None
+
+    def unroll(e, scopes):
+        if not isinstance(e, (ast.DictComp, ast.ListComp, ast.SetComp)) or len(e.generators) != 1:
+            return None
+        g = e.generators[0]
+        if g.ifs or g.is_async:
+            return None
+        els = elements(g.iter, scopes)
+        if els is None or len(els) > 32:
+            return None
+        outs = []
+        for el in els:
+            if isinstance(g.target, ast.Name):
+                sub = {g.target.id: el}
+            elif isinstance(g.target, ast.Tuple) and isinstance(el, ast.Tuple) and len(el.elts) == len(g.target.elts) \
+                    and all(isinstance(t, ast.Name) for t in g.target.elts):
+                sub = {t.id: x for t, x in zip(g.target.elts, el.elts)}
+            else:
+                return None
+            if isinstance(e, ast.DictComp):
+                outs.append((_Subst(sub, {}).visit(copy.deepcopy(e.key)), _Subst(sub, {}).visit(copy.deepcopy(e.value))))
+            else:
+                outs.append(_Subst(sub, {}).visit(copy.deepcopy(e.elt)))
+        if isinstance(e, ast.DictComp):
+            return ast.Dict(keys=[k for k, _ in outs], values=[v for _, v in outs])
+        return (ast.List if isinstance(e, ast.ListComp) else ast.Set)(elts=outs, ctx=ast.Load()) if isinstance(e, ast.ListComp) else ast.Set(elts=outs)
+    for m in prog.modules.values():
+        for st in m.tree.body:
+            if isinstance(st, ast.Assign) and len(st.targets) == 1 and isinstance(st.targets[0], ast.Name) \
+                    and '%s.%s' % (m.name, st.targets[0].id) not in known:
+                new = unroll(st.value, [m.tree.body])
+                if new is not None:
+                    st.value = ast.fix_missing_locations(ast.copy_location(new, st.value))
+            if isinstance(st, ast.ClassDef):
+                for b in st.body:
+                    if isinstance(b, ast.Assign) and len(b.targets) == 1 and isinstance(b.targets[0], ast.Name) \
+                            and '%s.%s.%s' % (m.name, st.name, b.targets[0].id) not in known:
+                        new = unroll(b.value, [st.body, m.tree.body])
+                        if new is not None:
+                            b.value = ast.fix_missing_locations(ast.copy_location(new, b.value))
+
+
 def inline_new_constants(prog, known):
     """module-level and class-level names that are not in the reference tree and are bound once to a constant display are
     replaced by that display wherever they are read (so `_HEADER_FORMAT = '>8s8s4B2L'` ... `unpack_from(_HEADER_FORMAT, data)`
     is again `unpack_from('>8s8s4B2L', data)`).  Returns the list of inlined names."""
     done = []
+    _unroll_constant_comprehensions(prog, known)
     # ---- module level
     for m in prog.modules.values():
         cands = {}
@@ -2119,8 +2275,22 @@ class Inliner:
             if any(d not in ('staticmethod', 'classmethod', 'lru_cache', 'cache') for d in decos):
                 continue
             if memo:
+                # ... or of values nobody can change: numbers, strings, tuples of them, immutable library value objects
+                def immutable(e):
+                    if isinstance(e, ast.Name) and e.id in local_classes:
+                        return True
+                    if isinstance(e, ast.Constant):
+                        return True
+                    if isinstance(e, ast.Tuple):
+                        return all(immutable(x) for x in e.elts)
+                    if isinstance(e, (ast.BinOp, ast.UnaryOp, ast.Compare, ast.BoolOp)):
+                        return not any(isinstance(x, (ast.List, ast.Dict, ast.Set, ast.ListComp, ast.DictComp, ast.SetComp)) for x in ast.walk(e))
+                    if isinstance(e, ast.Call) and isinstance(e.func, (ast.Name, ast.Attribute)):
+                        return src(e.func).split('.')[-1] in ('len', 'int', 'bytes', 'str', 'tuple', 'frozenset', 'Struct', 'ip_address', 'ip_network',
+                                                              'DHParameterNumbers', 'DHPublicNumbers', 'EllipticCurvePublicNumbers', 'calcsize', 'sizeof')
+                    return False
                 rets = [x for x in walk_no_nested(n) if isinstance(x, ast.Return)]
-                if not rets or not all(isinstance(r.value, ast.Name) and r.value.id in local_classes for r in rets):
+                if not rets or not all(r.value is not None and immutable(r.value) for r in rets):
                     continue
             bad = False
             for x in walk_no_nested(n):
@@ -2585,6 +2755,18 @@ class Inliner:
                 k = inline_bound_method_locals(fi.node)
                 if k:
                     self.report.setdefault('bound_method_locals', {})[q] = k
+                if fi.cls is not None and fi.self_name:
+                    def rebound_elsewhere(a, fi=fi):
+                        for m_ in fi.cls.methods.values():
+                            if m_ is fi or m_.name == '__init__' or not isinstance(m_.node, ast.FunctionDef):
+                                continue
+                            for y in ast.walk(m_.node):
+                                if isinstance(y, ast.Attribute) and y.attr == a and isinstance(y.ctx, (ast.Store, ast.Del)):
+                                    return True
+                        return False
+                    k = eliminate_container_aliases(fi.node, fi.self_name, rebound_elsewhere)
+                    if k:
+                        self.report.setdefault('container_aliases', {})[q] = k
                 k = counting_whiles_to_for(fi.node)
                 if k:
                     self.report['counting_loops'][q] = k
